@@ -64,6 +64,16 @@ type engine struct {
 
 	steps, maxSteps uint64
 	cov             *Coverage
+
+	filename     string
+	allowInvalid bool
+}
+
+// RunOptions mirror the options of the generated parser's public API.
+type RunOptions struct {
+	Entry            *string // nil: the first rule; "" means the first rule as well (pigeon's Entrypoint(""))
+	AllowInvalidUTF8 bool
+	Filename         string // prefix of every error message
 }
 
 var errInvalidEncoding = errors.New("invalid encoding")
@@ -83,7 +93,16 @@ func Run(g *Grammar, code *Code, data []byte, maxSteps uint64, cov *Coverage) (v
 // RunSteps is Run plus the number of expression nodes the parse entered (the
 // quantity pigeon counts as Stats.ExprCnt).
 func RunSteps(g *Grammar, code *Code, data []byte, maxSteps uint64, cov *Coverage) (val interface{}, errText string, steps uint64, err error) {
-	e := &engine{g: g, code: code, data: data, maxSteps: maxSteps, cov: cov}
+	return RunOpts(g, code, data, maxSteps, cov, RunOptions{})
+}
+
+// RunOpts is RunSteps under the given options.
+func RunOpts(g *Grammar, code *Code, data []byte, maxSteps uint64, cov *Coverage, o RunOptions) (val interface{}, errText string, steps uint64, err error) {
+	e := &engine{g: g, code: code, data: data, maxSteps: maxSteps, cov: cov, filename: o.Filename, allowInvalid: o.AllowInvalidUTF8}
+	start := g.Rules[0]
+	if o.Entry != nil && *o.Entry != "" {
+		start = g.ByName[*o.Entry]
+	}
 	defer func() { steps = e.steps }()
 	e.pt = savepoint{position: position{line: 1}}
 	e.maxFailPos = position{col: 1, line: 1}
@@ -104,8 +123,13 @@ func RunSteps(g *Grammar, code *Code, data []byte, maxSteps uint64, cov *Coverag
 				}
 			}
 		}()
+		if start == nil {
+			e.addErr(errors.New("invalid entrypoint"))
+			val = nil
+			return
+		}
 		e.read()
-		v, ok := e.parseRule(g.Rules[0])
+		v, ok := e.parseRule(start)
 		if !ok {
 			if len(e.errs) == 0 {
 				set := map[string]struct{}{}
@@ -161,6 +185,9 @@ func (e *engine) addErr(err error) { e.addErrAt(err, e.pt.position) }
 
 func (e *engine) addErrAt(err error, pos position) {
 	var sb strings.Builder
+	if e.filename != "" {
+		sb.WriteString(e.filename + ":")
+	}
 	fmt.Fprintf(&sb, "%d:%d (%d)", pos.line, pos.col, pos.offset)
 	if len(e.rstack) > 0 {
 		r := e.rstack[len(e.rstack)-1]
@@ -200,7 +227,7 @@ func (e *engine) read() {
 		e.pt.line++
 		e.pt.col = 0
 	}
-	if rn == utf8.RuneError && n == 1 {
+	if rn == utf8.RuneError && n == 1 && !e.allowInvalid {
 		e.addErr(errInvalidEncoding)
 	}
 }
